@@ -1,6 +1,6 @@
 """C15 — MaxSAT solving reports the true optimum (structural clauses W1–W5)."""
 from ..main import run_rule
-from ..flow import resolver, peel, guards_of, rel_fact, aggregates, show, edge_facts
+from ..flow import resolver, peel, guards_of, rel_fact, aggregates, show, edge_facts, root_local
 from ..symexec import SymExec, variant_name
 from ..facts import AnchorMissing, op_const_int
 
@@ -302,10 +302,63 @@ def w4(led, rid, ctx):
                     continue
                 if depth is None:
                     depth = loop_depth(f)
-                n += 1
                 d = depth[b["id"]]
+                # a snapshot of the field taken outside this loop is not the running value
+                def field_read_depths(op, seen=0):
+                    pl = op.get("copy") or op.get("move")
+                    out = []
+                    if not pl:
+                        return out
+                    if [x.get("name") for x in pl["proj"] if "field" in x] == names:
+                        return [d]
+                    if pl["proj"] or seen > 6:
+                        return out
+                    for df in f.whole_defs(pl["local"]):
+                        if df[0] == "stmt" and df[3]["s"] == "assign":
+                            rv2 = df[3]["rv"]
+                            if rv2["r"] == "use":
+                                pl2 = rv2["op"].get("copy") or rv2["op"].get("move")
+                                if pl2 and [x.get("name") for x in pl2["proj"] if "field" in x] == names:
+                                    out.append(depth[df[1]])
+                                else:
+                                    out += field_read_depths(rv2["op"], seen + 1)
+                            elif rv2["r"] == "binop":
+                                out += field_read_depths(rv2["a"], seen + 1) + field_read_depths(rv2["b"], seen + 1)
+                    return out
+                rv0 = s["rv"]
+                reads = []
+                if rv0["r"] == "binop":
+                    reads = field_read_depths(rv0["a"]) + field_read_depths(rv0["b"])
+                else:
+                    pl0 = (rv0.get("op") or {}).get("copy") or (rv0.get("op") or {}).get("move")
+                    if pl0:
+                        for df in f.whole_defs(pl0["local"]):
+                            if df[0] == "stmt" and df[3]["s"] == "assign" and df[3]["rv"]["r"] == "binop":
+                                reads += field_read_depths(df[3]["rv"]["a"]) + field_read_depths(df[3]["rv"]["b"])
+                if reads and all(r_ < d for r_ in reads):
+                    led.ok(rid, "%s:%s=snapshot+" % ((f.parent or f.defn).rsplit("::", 1)[-1], names[-1]),
+                           "%s:%d" % (f.file, s["line"]), "recomputed from a value of the field saved outside the loop")
+                    continue
+                n += 1
                 key = "%s:%s+=" % ((f.parent or f.defn).rsplit("::", 1)[-1], names[-1])
                 if d < 2:
+                    # W4b: inside a loop, adding an aggregate (sum / fold / count) taken over a
+                    # collection that the loop does not change adds the same total once per round
+                    other = e.c if names[-1] in e.b.fields() else e.b
+                    aggs = [x for x in other.walk() if x.k == "call" and x.a.name in ("sum", "fold", "count", "product")]
+                    invariant = False
+                    for x in aggs:
+                        roots = [y for y in x.walk() if y.k == "arg"]
+                        loopy = any(y.k == "call" and y.a.name == "next" for y in x.walk())
+                        if roots and not loopy:
+                            invariant = True
+                    if d >= 1 and invariant:
+                        led.bad(rid, key + ":aggregate-in-loop", "%s:%d" % (f.file, s["line"]),
+                                "`self.%s +=` adds an aggregate over a whole collection inside a loop that "
+                                "does not consume that collection: every further round adds the total again "
+                                "(the bound derived from it becomes too strong and a non-optimal solution is "
+                                "declared optimal)" % names[-1])
+                        continue
                     led.ok(rid, key, "%s:%d" % (f.file, s["line"]), "accumulation at loop depth %d" % d)
                     continue
                 # reset inside the outer loop?
@@ -367,6 +420,151 @@ def w5(led, rid, ctx):
                   "s UNSATISFIABLE")
 
 
+def w6(led, rid, ctx):
+    """the satisfaction test of a soft clause sees the clause as mapped: nothing is removed from it
+    before"""
+    p = ctx.bin
+    soft = None
+    for x in p.fns.values():
+        if (x.self_adt or "").endswith("SolverDimacsSink") and x.name == "add_soft_clause":
+            soft = x
+    if soft is None:
+        raise AnchorMissing("SolverDimacsSink::add_soft_clause")
+    f = soft
+    R = resolver(f)
+    cfg = f.cfg
+    tests = []
+    for c in f.calls:
+        if c.name in ("any", "all", "find", "position") and len(c.args) > 1:
+            clo = [x for x in R.operand(c.args[1]).walk() if x.k == "closure"]
+            for x in clo:
+                g = p.fns.get(x.a)
+                if g and any(cc.name == "get_literal_value" for cc in g.calls):
+                    tests.append(c)
+    if not tests:
+        raise AnchorMissing("the satisfaction test (any(|l| value(l))) in add_soft_clause")
+    REMOVERS = ("retain", "retain_mut", "truncate", "drain", "dedup", "dedup_by_key", "clear", "pop", "remove",
+                "swap_remove", "split_off", "filter")
+    n = 0
+    for t in tests:
+        n += 1
+        src = R.operand(t.args[0])
+        sel = [x.a.name for x in src.walk() if x.k == "call" and x.a.name in REMOVERS]
+        L = root_local(f, t.args[0])
+        roots = set()
+        for x in src.walk():
+            if x.k in ("local", "phi"):
+                roots.add(x.a if x.k == "local" else x.b)
+        if L is not None:
+            roots.add(L)
+        for c in f.calls:
+            if c.name in REMOVERS and c.args and cfg.dominates(c.bb, t.bb) and c.bb != t.bb:
+                e0 = peel(R.operand(c.args[0]), calls=None)
+                same_value = e0.k == "call" and any(e0.a is y for y in src.calls())
+                if root_local(f, c.args[0]) in roots or same_value:
+                    sel.append(c.name)
+        led.check(not sel, rid, "add_soft_clause:satisfied-test-sees-whole-clause", t.span,
+                  "no element removed before the test",
+                  "add_soft_clause applies `%s` to the clause before it tests whether the clause is already "
+                  "satisfied at the root: a literal that is true there is dropped, the clause is relaxed (or "
+                  "counted as violated) although it holds, and the reported optimum is too high"
+                  % (sel[0] if sel else ""))
+    led.floor(rid, "satisfaction tests in add_soft_clause", n, 1)
+
+
+W7_TABLE = {
+    ("strengthen_at_most_k", "weight"):
+        "the root node's literals are sorted by weight and the loop only posts the unit clauses of the "
+        "weights above the new bound, from the largest down: the first weight that fits ends the work",
+}
+
+
+def w7(led, rid, ctx):
+    """a loop of an encoder that posts clauses is left only when its iterator is exhausted, on an
+    error, or by a panic: no data-dependent early exit skips the remaining elements"""
+    p = ctx.bin
+    n = 0
+    for f in p.fns.values():
+        if "/maxsat/encoders/" not in f.file or "/tests" in f.file:
+            continue
+        adds = [c for c in f.calls if c.name == "add_clause"]
+        if not adds:
+            continue
+        cfg = f.cfg
+        R = resolver(f)
+        heads = cfg.loop_heads()
+        rets = cfg.returns
+        for h in sorted(heads):
+            latches = [u for u in cfg.pred.get(h, []) if cfg.dominates(h, u)]
+            L = {x for x in range(cfg.total) if cfg.dominates(h, x) and
+                 (x == h or any(cfg.reaches(x, [u], avoid=[h], strict=False) for u in latches))}
+            # clauses posted inside the loop, or on a path that leaves it (post-and-break)
+            region = [c for c in adds if c.bb in L or (cfg.dominates(h, c.bb) and not cfg.dominates(c.bb, h))]
+            if not any(c.bb in L for c in adds):
+                # no clause inside the loop proper: only interesting if one is posted on an exit path
+                pass
+            if not region:
+                continue
+            n += 1
+            for u in sorted(L):
+                for v in cfg.succ.get(u, []):
+                    if v in L:
+                        continue
+                    src = u if u < cfg.n else next(e.src for es in cfg.edges.values() for e in es if e.node == u)
+                    t = f.blocks[src]["term"]
+                    if t["t"] != "switch":
+                        if t["t"] == "call" and v != t.get("target"):
+                            continue
+                        if not cfg.reaches(v, rets, strict=False) or _error_exit(f, v):
+                            continue
+                        led.bad(rid, "%s:loop%d:unconditional-exit" % (f.name, sorted(heads).index(h)),
+                                "%s:%d" % (f.file, f.blocks[src]["line"]),
+                                "%s jumps out of a clause-posting loop unconditionally" % f.name)
+                        continue
+                    cond = peel(R.operand(t["discr"]), calls=None)
+                    if cond.k == "discr" and any(c.name == "next" for c in cond.calls()):
+                        continue
+                    if cond.k == "call" and cond.a.name in ("is_err", "is_none", "is_some", "is_ok") :
+                        if not cfg.reaches(v, rets, strict=False) or _error_exit(f, v) or cond.a.name == "is_err":
+                            continue
+                    if not cfg.reaches(v, rets, strict=False) or _error_exit(f, v):
+                        continue
+                    if cond.k in ("phi", "local", "const"):
+                        continue       # `while flag` header
+                    # does a clause get posted in this loop at all / on this exit path?
+                    flds = sorted({q for x in cond.walk() for q in (x.fields() if x.k == "proj" else [])})
+                    key = (f.name, flds[-1] if flds else show(cond)[:30])
+                    why = W7_TABLE.get(key)
+                    led.check(why is not None, rid, "%s:loop%d:exit-on-%s" % (f.name, sorted(heads).index(h), key[1]),
+                              "%s:%d" % (f.file, f.blocks[src]["line"]), "table: %s" % why,
+                              "%s leaves a loop that posts encoding clauses on the data-dependent test `%s` "
+                              "before its iterator is exhausted: the clauses of the remaining elements are "
+                              "never posted (totaliser sum literals are not monotone, the dropped clauses "
+                              "are not implied), so the encoding admits assignments that exceed the bound"
+                              % (f.name, show(cond)[:90]))
+    led.floor(rid, "clause-posting loops in the encoders", n, 8)
+
+
+def _error_exit(f, v):
+    """does control from v reach the return only with an Err aggregate / a panic?"""
+    cfg = f.cfg
+    seen = set()
+    work = [v]
+    while work:
+        x = work.pop()
+        if x in seen:
+            continue
+        seen.add(x)
+        if x < cfg.n:
+            for st in f.blocks[x]["stmts"]:
+                if st["s"] == "assign" and st["rv"]["r"] == "aggregate" and st["rv"].get("variant") == "Err":
+                    return True
+            if len(seen) > 12:
+                return False
+        work.extend(cfg.succ.get(x, []))
+    return False
+
+
 def run(ctx, led):
     run_rule(led, "W1", "GUARDED-SUB over the MaxSAT code (weak form, one call level, table for "
              "arithmetic arguments)", w1, ctx)
@@ -376,3 +574,5 @@ def run(ctx, led):
     run_rule(led, "W4", "no accumulation into a field inside a re-entered inner loop without a reset "
              "in the enclosing loop", w4, ctx)
     run_rule(led, "W5", "no variable is created after a hard clause failed", w5, ctx)
+    run_rule(led, "W6", "the root-satisfaction test of a soft clause sees the whole mapped clause", w6, ctx)
+    run_rule(led, "W7", "encoder loops that post a clause per element do not stop after posting one", w7, ctx)
